@@ -16,8 +16,9 @@ Documented behaviour that is modelled (odl/discr/discr_utils.py):
   nothing is documented -> ``None`` (unspecified).
 * ``per_axis_interpolator``: the scheme is chosen per axis, the weight of a node is the
   product of its per-axis weights.
-* an axis with a single node has no "surrounding nodes": linear is unspecified there, nearest
-  is the value of the only node.
+* an axis with a single node: nearest is the value of the only node; linear reproduces the
+  node value AT the node (the property's node reproduction clause) and is unspecified elsewhere
+  (no "surrounding nodes", no neighbouring spacing for the virtual zero node).
 """
 import itertools
 from fractions import Fraction
@@ -46,7 +47,9 @@ def axis_weights(cvec, t, scheme):
     if scheme != 'linear':
         raise ValueError(scheme)
     if n < 2:
-        return None
+        # one node: the only "surrounding node" of the node itself is that node (node values
+        # are reproduced); anywhere else nothing is documented
+        return [Fraction(1)] if t == c[0] else None
     if t < c[0]:
         h = c[1] - c[0]
         d = c[0] - t
@@ -157,7 +160,7 @@ def sample(cvecs, scalar_func, dtype):
     return out
 
 
-def axis_points(cvec, outside=True, far=False):
+def axis_points(cvec, outside=True, far=False, cells=()):
     """Evaluation points of one axis, simplest first.
 
     nodes, cell midpoints (ties of the nearest scheme), quarter points and -- outside the hull
@@ -175,7 +178,7 @@ def axis_points(cvec, outside=True, far=False):
             h0, h1 = c[1] - c[0], c[n - 1] - c[n - 2]
         else:
             h0 = h1 = 1.0
-        fr = [0.5, 0.25] + ([1.0] if far else [])
+        fr = [0.5, 0.25] + ([1.0] if far else []) + list(cells)     # cells: far outside
         for q in fr:
             pts += [c[0] - q * h0, c[n - 1] + q * h1]
     seen, res = set(), []
